@@ -14,7 +14,7 @@ from hypergraph.graph.validation import GraphConfigError  # noqa: E402
 
 FLAWS = ["unknown_target", "unknown_target_multi", "dup_producer", "dup_node", "bad_node_name", "bad_output_name", "bad_graph_name",
          "inconsistent_default", "wait_for_unknown", "edge_unknown_node", "edge_unknown_value", "type_mismatch", "missing_annotation",
-         "gate_self_target"]
+         "gate_self_target", "dup_producer_two_names"]
 
 
 def typed_chain(rng: random.Random) -> dict:
@@ -26,6 +26,12 @@ def typed_chain(rng: random.Random) -> dict:
         {"name": "b", "kind": "fn", "params": [["p", None]], "dataOuts": ["q"], "body": {"b": "tag", "t": "b"}, "ann": {"p": in_t, "return": "str"}},
         {"name": "c", "kind": "fn", "params": [["q", None], ["y", {"d": 1}]], "dataOuts": ["r"], "body": {"b": "tag", "t": "c"}, "ann": {"q": "str", "y": "int", "return": "str"}},
     ]
+    if rng.random() < 0.5:
+        # the same chain with b's and c's parameters declared under other names and renamed onto the wiring (incl. a swap on c)
+        nodes[1] = {"name": "b", "kind": "fn", "params": [["pp", None]], "inRen": [["pp", "p"]], "dataOuts": ["q"], "body": {"b": "tag", "t": "b"},
+                    "ann": {"pp": in_t, "return": "str"}}
+        nodes[2] = {"name": "c", "kind": "fn", "params": [["y", None], ["q", {"d": 1}]], "inRen": [["y", "q"], ["q", "y"]], "dataOuts": ["r"],
+                    "body": {"b": "tag", "t": "c"}, "ann": {"y": "str", "q": "int", "return": "str"}}
     return {"program": [{"name": "g0", "nodes": nodes, "bound": [], "strict": True}], "values": [["x", 1]]}
 
 
@@ -68,6 +74,23 @@ def inject(rng: random.Random, program: list[dict], flaw: str, gi: int) -> list[
         b["dataOuts"] = [a["dataOuts"][0]] + b["dataOuts"][1:]
         if b["body"]["b"] == "multi" and len(b["dataOuts"]) == 1:
             b["body"] = {"b": "tag", "t": b["name"]}
+    elif flaw == "dup_producer_two_names":
+        # two unordered, non-exclusive nodes that share TWO output names, the only edges between them carrying exactly those names
+        ungated = [n for n in fns if n.get("dataOuts") and not any(n["name"] in gt["targets"] for gt in gates) and not n.get("emits") and not n.get("waitFor")]
+        if len(ungated) < 2:
+            return None
+        a, b = rng.sample(ungated, 2)
+        if _reaches(nodes, a["name"], b["name"]) or _reaches(nodes, b["name"], a["name"]):
+            return None
+        o0 = a["dataOuts"][0]
+        o1 = a["dataOuts"][1] if len(a["dataOuts"]) > 1 else "zz_second"
+        for n in (a, b):
+            n["dataOuts"] = [o0, o1]
+            n["body"] = {"b": "multi", "t": n["name"], "k": 2}
+        a.setdefault("params", []).append(["fb_in", {"d": 0}])
+        a["inRen"] = list(a.get("inRen", [])) + [["fb_in", o1]]
+        b.setdefault("params", []).append(["fw_in", {"d": 0}])
+        b["inRen"] = list(b.get("inRen", [])) + [["fw_in", o0]]
     elif flaw == "dup_node":
         if len(nodes) < 2:
             return None
@@ -136,7 +159,7 @@ def inject(rng: random.Random, program: list[dict], flaw: str, gi: int) -> list[
         if not g.get("strict"):
             return None
         b = next(n for n in nodes if n["name"] == "b")
-        b["ann"]["p"] = rng.choice(["str", {"g": "list", "a": ["str"]}, "float"])
+        b["ann"][b["params"][0][0]] = rng.choice(["str", {"g": "list", "a": ["str"]}, "float"])
         a = next(n for n in nodes if n["name"] == "a")
         a["ann"]["return"] = rng.choice(["int", {"g": "list", "a": ["int"]}])
     elif flaw == "missing_annotation":
@@ -146,7 +169,7 @@ def inject(rng: random.Random, program: list[dict], flaw: str, gi: int) -> list[
         if n["name"] == "a":
             del n["ann"]["return"]
         else:
-            del n["ann"]["p"]
+            del n["ann"][n["params"][0][0]]
     else:
         return None
     return p
@@ -216,13 +239,16 @@ class C19(Prop):
                 flawed = inject(rng, program, flaw, gi)
                 if flawed is not None:
                     break
-            yield {"kind": "struct", "program": program, "flaw": flaw if flawed is not None else None, "flawed": flawed, "gi": gi}
+            yield {"kind": "struct", "program": program, "flaw": flaw if flawed is not None else None, "flawed": flawed, "gi": gi,
+                   "late": rng.random() < 0.5}
 
     # ---------------------------------------------------------------- implementation
     @staticmethod
-    def _construct(program: list[dict]) -> str:
+    def _construct(program: list[dict], late: bool = False) -> str:
         try:
-            build.build_program(program, Env())
+            env = Env()
+            env.late_renames = late      # node objects are used first (placed in a graph, defaults read) and renamed afterwards
+            build.build_program(program, env)
             return "ok"
         except GraphConfigError:
             return "GraphConfigError"
@@ -242,7 +268,8 @@ class C19(Prop):
                 refl = [tu.is_type_compatible(a, a) for a in rows]
                 top = [tu.is_type_compatible(a, tu.Any) for a in rows]
             return {"m": m, "refl": refl, "top": top}
-        return {"valid": self._construct(case["program"]), "flawed": self._construct(case["flawed"]) if case["flawed"] is not None else None}
+        late = bool(case.get("late"))
+        return {"valid": self._construct(case["program"], late), "flawed": self._construct(case["flawed"], late) if case["flawed"] is not None else None}
 
     def oracle(self, case: dict, obs: Any) -> str | None:
         if case["kind"] == "types":
